@@ -113,9 +113,11 @@ def run(tier):
     kinds = collections.Counter()
     for rd in range(rounds):
         gens = []
+        gen_ents = []
         for i in range(40):
             r = core.rng(ck.seed, PID, 'gen', rd, i)
-            g = xmlgen.make(r)
+            g = xmlgen.make(r, file_prefix='g%d-' % i)
+            gen_ents += g['ents']
             gens.append(('gen-wf-%d' % i, g['bytes'], g['cx'].ns))
             ops = list(xmlmut.ALL_OPS)
             r.shuffle(ops)
@@ -130,7 +132,7 @@ def run(tier):
             steps = gen_sequence(r, D, gens, api, r.randint(*length))
             sid = 'r%ds%d' % (rd, s)
             base = dict(api=api, resolver=r.choice(['x', 'x', 'sax']) if api not in ('domls',) else 'x', resmiss='empty')
-            c = core.Case(sid, 'parse', base, ents=ENTS)
+            c = core.Case(sid, 'parse', base, ents=ENTS + gen_ents)
             for k, (name, data, o) in enumerate(steps):
                 oo = dict(o)
                 if k == len(steps) - 1 and api == 'dom':
@@ -142,7 +144,7 @@ def run(tier):
             for k, (name, data, o) in enumerate(steps):
                 o2 = dict(o)
                 o2.pop('adopt', None)
-                cases.append(core.Case('%s.f%d' % (sid, k), 'parse', base, ents=ENTS).doc(data, **o2))
+                cases.append(core.Case('%s.f%d' % (sid, k), 'parse', base, ents=ENTS + gen_ents).doc(data, **o2))
         recs = core.run_cases(binary, cases, tag='c15')
         for sid, (api, steps, base) in seqs.items():
             r_ = recs.get(sid)
